@@ -15,6 +15,7 @@ use routee_compass_core::model::access::access_model_error::AccessModelError;
 use routee_compass_core::model::cost::cost_aggregation::CostAggregation;
 use routee_compass_core::model::cost::cost_model::CostModel;
 use routee_compass_core::model::cost::network::network_cost_rate::NetworkCostRate;
+use routee_compass_core::model::cost::network::network_cost_rate_builder::NetworkCostRateBuilder;
 use routee_compass_core::model::cost::vehicle::vehicle_cost_rate::VehicleCostRate;
 use routee_compass_core::model::frontier::default::no_restriction::NoRestriction;
 use routee_compass_core::model::network::{Edge, EdgeId, Graph, Vertex, VertexId};
@@ -599,6 +600,9 @@ fn add_case(st: &mut Stream, c: Case, family: &str) {
                 Ok(x) if *x == MIN_COST => st.count("edge_cost:floored"),
                 Ok(x) => {
                     st.count("edge_cost:positive");
+                    if *x > 0.0 && *x < MIN_COST {
+                        st.count("edge_cost:positive_below_min_cost");
+                    }
                     // non-trivial: the charge is neither the floor nor the plain state change of one feature
                     let plain = c.p.iter().zip(c.st.iter()).any(|(a, b)| b - a == *x);
                     if !plain {
@@ -992,6 +996,18 @@ fn boundary(st: &mut Stream) {
     let mut c = simple(1, vec![1.0], vec![VR::Raw], vec![NR::Zero], false, vec![0.0], vec![2.0]);
     c.sa = vec![10.0];
     add_case(st, c, "negative_traversal_share");
+    // positive totals BELOW the floor (tiny weights / rates): enforce_strictly_positive(c) = c for every c > 0,
+    // the floor only replaces non-positive totals
+    for mul in [false, true] {
+        for (w, f, d) in [(1e-12, 1.0, 1.2), (1.0, 1e-13, 150.0), (9.094947017729282e-13, 1.0, 3.0), (1e-6, 1e-6, 0.5), (1e-11, 1.0, 9.0)] {
+            let c = simple(2, vec![w, w], vec![VR::Factor(f), VR::Raw], vec![NR::Zero, NR::Zero], mul, vec![0.0, 1.0], vec![d, if mul { 1.5 } else { 1.0 }]);
+            add_case(st, c, "tiny_costs");
+        }
+    }
+    // the C02 corpus shape: weight 1e-12 on metre-scale edges, with a tiny per-edge and per-turn surcharge
+    let mut c = simple(1, vec![1e-12], vec![VR::Raw], vec![NR::Combined(vec![NR::Edge(vec![(1, 0.25)]), NR::Pair(vec![((0, 1), 0.5)])])], false, vec![0.0], vec![1.2]);
+    c.sa = vec![0.125];
+    add_case(st, c, "tiny_costs");
 }
 
 /// float-only absorption: access share >= 2^51 x the total of the edge (e.g. access >= 2^20 and the total floored)
@@ -1060,6 +1076,416 @@ fn probe(a: &Args) {
     println!("{}", serde_json::to_string_pretty(&v).unwrap());
 }
 
+// ================================================================ stream `seq`: call sequences on ONE CostModel
+
+#[derive(Clone, Debug)]
+enum Call {
+    Access(usize, usize),
+    Trav(usize),
+    Edge(Option<(usize, usize)>, usize),
+    Est,
+}
+fn call_j(k: &Call) -> Value {
+    match k {
+        Call::Access(a, b) => json!({"k": "access", "prev": a, "next": b}),
+        Call::Trav(e) => json!({"k": "traversal", "e": e}),
+        Call::Edge(Some((a, b)), e) => json!({"k": "edge", "prev": a, "next": b, "e": e}),
+        Call::Edge(None, e) => json!({"k": "edge", "e": e}),
+        Call::Est => json!({"k": "estimate"}),
+    }
+}
+fn j_call(v: &Value) -> Call {
+    let us = |x: &Value| x.as_u64().unwrap() as usize;
+    match v["k"].as_str().unwrap() {
+        "access" => Call::Access(us(&v["prev"]), us(&v["next"])),
+        "traversal" => Call::Trav(us(&v["e"])),
+        "edge" => Call::Edge(if v["prev"].is_null() { None } else { Some((us(&v["prev"]), us(&v["next"]))) }, us(&v["e"])),
+        _ => Call::Est,
+    }
+}
+fn coq_call(k: &Call) -> String {
+    let z = |x: &usize| coq_z(*x as i128);
+    match k {
+        Call::Access(a, b) => format!("(CAccess ({}, {}))", z(a), z(b)),
+        Call::Trav(e) => format!("(CTrav {})", z(e)),
+        Call::Edge(Some((a, b)), e) => format!("(CEdge (Some ({}, {})) {})", z(a), z(b), z(e)),
+        Call::Edge(None, e) => format!("(CEdge None {})", z(e)),
+        Call::Est => "CEst".into(),
+    }
+}
+fn run_seq_impl(c: &Case, calls: &[Call]) -> Result<Vec<R1>, String> {
+    let sm = state_model(&c.names);
+    let cm = build_cm(c, sm)?; // ONE instance for the whole sequence
+    let g = graph();
+    let sv = |l: &[f64]| l.iter().map(|x| StateVar(*x)).collect::<Vec<_>>();
+    let (p, sa, st) = (sv(&c.p), sv(&c.sa), sv(&c.st));
+    let e = |i: &usize| *g.get_edge(&EdgeId(*i)).unwrap();
+    let r1 = |r: Result<Cost, routee_compass_core::model::cost::cost_model_error::CostModelError>| -> R1 {
+        r.map(|x| x.as_f64()).map_err(|e| class(format!("{:?}", e)))
+    };
+    Ok(calls
+        .iter()
+        .map(|k| match k {
+            Call::Access(a, b) => r1(cm.access_cost(&e(a), &e(b), &p, &sa)),
+            Call::Trav(x) => r1(cm.traversal_cost(&e(x), &p, &st)),
+            Call::Edge(Some((a, b)), x) => r1(cm.edge_cost(Some((&e(a), &e(b))), &e(x), &p, &st)),
+            Call::Edge(None, x) => r1(cm.edge_cost(None, &e(x), &p, &st)),
+            Call::Est => r1(cm.cost_estimate(&p, &st)),
+        })
+        .collect())
+}
+fn add_seq(st: &mut Stream, c: Case, calls: Vec<Call>, family: &str) {
+    let id = st.next_id();
+    let (cc, kk) = (c.clone(), calls.clone());
+    let out: Result<Vec<R1>, String> = match catch(move || run_seq_impl(&cc, &kk)) {
+        Ok(r) => r,
+        Err(_) => Err("Panic".into()),
+    };
+    let cq = coq_case(&c);
+    let ks = coq_list(&calls, coq_call);
+    let (show, coq) = match &out {
+        Ok(l) => (format!("new=Ok {}", show_list(l, show_r1)), format!("(@Ok (list (res float)) {})", coq_list(l, coq_r1))),
+        Err(e) => (format!("new=Err {}", e), format!("(@Err (list (res float)) {})", coq_string(e))),
+    };
+    let terms = vec![
+        format!("line_mseq {} {} {}", coq_z(id as i128), cq, ks),
+        format!("line_sseq {} {} {} {}", coq_z(id as i128), cq, ks, coq),
+    ];
+    st.count(&format!("family:{}", family));
+    st.count(&format!("calls:{}", calls.len()));
+    // non-trivial: an edge_cost with a pair follows an access_cost of a DIFFERENT pair with the same next edge
+    let mut last_access: Option<(usize, usize)> = None;
+    let mut stale_risk = false;
+    for k in &calls {
+        match k {
+            Call::Access(a, b) => last_access = Some((*a, *b)),
+            Call::Edge(Some((a, b)), _) => {
+                if let Some((la, lb)) = last_access {
+                    if lb == *b && la != *a {
+                        stale_risk = true;
+                    }
+                }
+            }
+            _ => {}
+        }
+    }
+    if stale_risk {
+        st.count("edge_cost_after_access_of_other_pair_same_next");
+        st.mark_nontrivial(&format!("{}{:?}", case_j(&c), calls));
+    }
+    let desc = json!({"id": id, "family": family, "case": case_j(&c), "calls": calls.iter().map(call_j).collect::<Vec<_>>(),
+        "readable": format!("{:?} calls {:?}", c, calls)});
+    st.case(terms, vec![format!("I {} {}", id, show)], desc);
+}
+fn seq_config(turns: Vec<((usize, usize), f64)>, edge_fees: Vec<(usize, f64)>, w: f64, mul: bool) -> Case {
+    let mut c = simple(
+        2,
+        vec![w, 1.0],
+        vec![VR::Raw, VR::Raw],
+        vec![NR::Combined(vec![NR::Pair(turns), NR::Edge(edge_fees)]), NR::Zero],
+        mul,
+        vec![0.0, 0.0],
+        vec![1.0, if mul { 1.0 } else { 0.0 }],
+    );
+    c.sa = vec![0.0, 0.0];
+    c
+}
+fn seq_stream(a: &Args, st: &mut Stream) {
+    // the junction of the C07-15 witness: turns 1->3 costs 5, 2->3 costs 0.5, 4->3 is a rebate of 3; the edge itself costs 1
+    let junction = || seq_config(vec![((1, 3), 5.0), ((2, 3), 0.5), ((4, 3), -3.0)], vec![], 1.0, false);
+    let e3 = |p: usize| Call::Edge(Some((p, 3)), 3);
+    add_seq(st, junction(), vec![e3(2), e3(1), Call::Access(1, 3), e3(2), e3(2), Call::Access(4, 3), e3(4), e3(1), e3(2)], "junction_witness");
+    add_seq(st, junction(), vec![Call::Access(1, 3), e3(2)], "junction_witness");
+    add_seq(st, junction(), vec![Call::Access(4, 3), e3(1), Call::Edge(None, 3), Call::Trav(3), Call::Est, e3(2)], "junction_witness");
+    add_seq(st, junction(), vec![Call::Access(2, 3), Call::Access(1, 3), Call::Trav(3), e3(2), Call::Access(2, 3), e3(1)], "junction_witness");
+    // every ordered pair of (access of pair x ; edge_cost of pair y) over three incoming edges, both aggregations, weights
+    for mul in [false, true] {
+        for w in [1.0, 3.0, -1.0] {
+            for x in [1usize, 2, 4] {
+                for y in [1usize, 2, 4] {
+                    let c = seq_config(vec![((1, 3), 5.0), ((2, 3), 0.5), ((4, 3), -3.0)], vec![(3, 0.25)], w, mul);
+                    add_seq(st, c, vec![Call::Access(x, 3), e3(y), Call::Access(y, 3), e3(x)], "access_then_edge_pairs");
+                }
+            }
+        }
+    }
+    let mut rng = Rng::new(a.seed ^ 0x5e9);
+    while st.next_id() < a.n {
+        let mut r = rng.fork();
+        let mut c = random_case(&mut r);
+        // make sure edge-pair rates with several incoming edges of a shared next edge are present
+        let next = r.below(N_EDGES as u64) as usize;
+        let mut turns = vec![];
+        for p in 0..N_EDGES {
+            if r.chance(2, 3) {
+                turns.push(((p, next), val(&mut r)));
+            }
+        }
+        if !c.names.is_empty() {
+            let nm = c.names[r.below(c.names.len() as u64) as usize].clone();
+            c.n.retain(|(k, _)| *k != nm);
+            let extra = gen_nr(&mut r, 1, next, 0);
+            c.n.push((nm, if r.chance(1, 2) { NR::Pair(turns) } else { NR::Combined(vec![extra, NR::Pair(turns)]) }));
+        }
+        let ncalls = 2 + r.below(9) as usize;
+        let mut calls = vec![];
+        for _ in 0..ncalls {
+            let p = r.below(N_EDGES as u64) as usize;
+            let e = if r.chance(4, 5) { next } else { r.below(N_EDGES as u64) as usize };
+            calls.push(match r.below(8) {
+                0..=2 => Call::Access(p, e),
+                3..=5 => Call::Edge(Some((p, e)), e),
+                6 => if r.chance(1, 2) { Call::Trav(e) } else { Call::Edge(None, e) },
+                _ => Call::Est,
+            });
+        }
+        add_seq(st, c, calls, "random");
+    }
+}
+
+// ================================================================ stream `builder`: NetworkCostRateBuilder over CSV files
+
+#[derive(Clone, Debug)]
+enum B {
+    Trav(Option<Vec<(usize, f64)>>),
+    Acc(Option<Vec<((usize, usize), f64)>>),
+    Comb(Vec<B>),
+}
+fn b_j(b: &B) -> Value {
+    match b {
+        B::Trav(None) => json!({"k": "traversal_missing"}),
+        B::Acc(None) => json!({"k": "access_missing"}),
+        B::Trav(Some(l)) => json!({"k": "traversal", "rows": l.iter().map(|(e, c)| json!([e, fj(*c)])).collect::<Vec<_>>()}),
+        B::Acc(Some(l)) => json!({"k": "access", "rows": l.iter().map(|((a, b), c)| json!([a, b, fj(*c)])).collect::<Vec<_>>()}),
+        B::Comb(l) => json!({"k": "combined", "l": l.iter().map(b_j).collect::<Vec<_>>()}),
+    }
+}
+fn j_b(v: &Value) -> B {
+    let us = |x: &Value| x.as_u64().unwrap() as usize;
+    match v["k"].as_str().unwrap() {
+        "traversal_missing" => B::Trav(None),
+        "access_missing" => B::Acc(None),
+        "traversal" => B::Trav(Some(v["rows"].as_array().unwrap().iter().map(|x| (us(&x[0]), jf(&x[1]))).collect())),
+        "access" => B::Acc(Some(v["rows"].as_array().unwrap().iter().map(|x| ((us(&x[0]), us(&x[1])), jf(&x[2]))).collect())),
+        _ => B::Comb(v["l"].as_array().unwrap().iter().map(j_b).collect()),
+    }
+}
+fn coq_b(b: &B) -> String {
+    match b {
+        B::Trav(None) => "(@BTraversal float None)".into(),
+        B::Acc(None) => "(@BAccess float None)".into(),
+        B::Trav(Some(l)) => format!("(@BTraversal float (Some {}))", coq_list(l, |(e, c)| format!("({}, {})", coq_z(*e as i128), coq_f64(*c)))),
+        B::Acc(Some(l)) => format!(
+            "(@BAccess float (Some {}))",
+            coq_list(l, |((a, b), c)| format!("(({}, {}), {})", coq_z(*a as i128), coq_z(*b as i128), coq_f64(*c)))
+        ),
+        B::Comb(l) => format!("(@BCombined float {})", coq_list(l, coq_b)),
+    }
+}
+/// writes the tables to CSV files and builds the REAL builder value: leaves are read from configuration JSON
+/// ({"type": "traversal_lookup", "cost_input_file": ...}), `combined` is assembled from its members
+fn real_builder(b: &B, dir: &std::path::Path, counter: &mut usize) -> NetworkCostRateBuilder {
+    *counter += 1;
+    let path = dir.join(format!("table_{}.csv", counter));
+    match b {
+        B::Trav(rows) => {
+            if let Some(rows) = rows {
+                let mut t = String::from("edge_id,cost\n");
+                for (e, c) in rows {
+                    t.push_str(&format!("{},{:?}\n", e, c));
+                }
+                std::fs::write(&path, t).unwrap();
+            }
+            serde_json::from_value(json!({"type": "traversal_lookup", "cost_input_file": path.to_str().unwrap()})).unwrap()
+        }
+        B::Acc(rows) => {
+            if let Some(rows) = rows {
+                let mut t = String::from("source,destination,cost\n");
+                for ((a, b), c) in rows {
+                    t.push_str(&format!("{},{},{:?}\n", a, b, c));
+                }
+                std::fs::write(&path, t).unwrap();
+            }
+            serde_json::from_value(json!({"type": "access_lookup", "cost_input_file": path.to_str().unwrap()})).unwrap()
+        }
+        B::Comb(l) => NetworkCostRateBuilder::Combined(l.iter().map(|x| real_builder(x, dir, counter)).collect()),
+    }
+}
+struct BCase {
+    b: B,
+    edges: Vec<usize>,
+    pairs: Vec<(usize, usize)>,
+    w: f64,
+    d: f64,
+}
+type BOut = Result<(Vec<f64>, Vec<f64>, Vec<R1>), String>;
+fn run_builder_impl(c: &BCase, dir: &std::path::Path) -> BOut {
+    let _ = std::fs::remove_dir_all(dir);
+    std::fs::create_dir_all(dir).unwrap();
+    let mut k = 0;
+    let rate = real_builder(&c.b, dir, &mut k).build().map_err(|e| {
+        let d = format!("{:?}", e);
+        if d.starts_with("BuildError") { "BuildError".to_string() } else { class(d) }
+    })?;
+    let edge = |i: usize| Edge::new(i, 0, 1, 1.0);
+    let z = StateVar(0.0);
+    let t = c.edges.iter().map(|e| rate.traversal_cost(z, z, &edge(*e)).map(|x| x.as_f64()).unwrap_or(f64::NAN)).collect();
+    let a = c.pairs.iter().map(|(x, y)| rate.access_cost(z, z, &edge(*x), &edge(*y)).map(|x| x.as_f64()).unwrap_or(f64::NAN)).collect();
+    let nm = names(1);
+    let cm = CostModel::new(
+        Arc::new([(nm[0].clone(), c.w)].into_iter().collect()),
+        Arc::new([(nm[0].clone(), VehicleCostRate::Raw)].into_iter().collect()),
+        Arc::new([(nm[0].clone(), rate.clone())].into_iter().collect()),
+        CostAggregation::Sum,
+        state_model(&nm),
+    )
+    .map_err(|e| class(format!("{:?}", e)))?;
+    let ec = c
+        .pairs
+        .iter()
+        .map(|(x, y)| {
+            cm.edge_cost(Some((&edge(*x), &edge(*y))), &edge(*y), &[StateVar(0.0)], &[StateVar(c.d)])
+                .map(|x| x.as_f64())
+                .map_err(|e| class(format!("{:?}", e)))
+        })
+        .collect();
+    Ok((t, a, ec))
+}
+fn b_tables(b: &B, out: &mut Vec<B>) {
+    match b {
+        B::Comb(l) => l.iter().for_each(|x| b_tables(x, out)),
+        x => out.push(x.clone()),
+    }
+}
+fn add_builder(st: &mut Stream, c: BCase, family: &str, dir: &std::path::Path) {
+    let id = st.next_id();
+    let d = dir.join(format!("case_{}", id));
+    let out: BOut = match catch(std::panic::AssertUnwindSafe(|| run_builder_impl(&c, &d))) {
+        Ok(r) => r,
+        Err(_) => Err("Panic".into()),
+    };
+    let cq = format!(
+        "(@Build_bcase float {} {} {} {} {})",
+        coq_b(&c.b),
+        coq_list(&c.edges, |e| coq_z(*e as i128)),
+        coq_list(&c.pairs, |(a, b)| format!("({}, {})", coq_z(*a as i128), coq_z(*b as i128))),
+        coq_f64(c.w),
+        coq_f64(c.d)
+    );
+    let (show, coq) = match &out {
+        Ok((t, a, e)) => (
+            format!("build=Ok t={} a={} ec={}", show_list(t, |x| show_f64(*x)), show_list(a, |x| show_f64(*x)), show_list(e, show_r1)),
+            format!("(@Ok (bouts float) ({}, {}, {}))", coq_list(t, |x| coq_f64(*x)), coq_list(a, |x| coq_f64(*x)), coq_list(e, coq_r1)),
+        ),
+        Err(e) => (format!("build=Err {}", e), format!("(@Err (bouts float) {})", coq_string(e))),
+    };
+    let terms = vec![format!("line_mb {} {}", coq_z(id as i128), cq), format!("line_sb {} {} {}", coq_z(id as i128), cq, coq)];
+    // non-trivial: some probed edge / pair is listed by at least two tables (the surcharges must ADD UP)
+    let mut tabs = vec![];
+    b_tables(&c.b, &mut tabs);
+    let overlap_e = c.edges.iter().chain(c.pairs.iter().map(|(_, y)| y)).any(|e| {
+        tabs.iter().filter(|t| matches!(t, B::Trav(Some(l)) if l.iter().any(|(k, _)| k == e))).count() >= 2
+    });
+    let overlap_p = c.pairs.iter().any(|p| tabs.iter().filter(|t| matches!(t, B::Acc(Some(l)) if l.iter().any(|(k, _)| k == p))).count() >= 2);
+    st.count(&format!("family:{}", family));
+    st.count(&format!("tables:{}", tabs.len()));
+    if overlap_e {
+        st.count("edge_in_two_or_more_traversal_tables");
+    }
+    if overlap_p {
+        st.count("pair_in_two_or_more_access_tables");
+    }
+    st.count(if out.is_ok() { "build:Ok" } else { "build:Err" });
+    if overlap_e || overlap_p {
+        st.mark_nontrivial(&b_j(&c.b).to_string());
+    }
+    let desc = json!({"id": id, "family": family, "builder": b_j(&c.b), "edges": c.edges,
+        "pairs": c.pairs.iter().map(|(a, b)| json!([a, b])).collect::<Vec<_>>(), "w": fj(c.w), "d": fj(c.d),
+        "readable": format!("{:?} edges {:?} pairs {:?} w {} d {}", c.b, c.edges, c.pairs, c.w, c.d)});
+    st.case(terms, vec![format!("I {} {}", id, show)], desc);
+}
+const B_EDGES: u64 = 10;
+fn gen_b(r: &mut Rng, depth: usize, hot_e: usize, hot_p: (usize, usize)) -> B {
+    let k = if depth == 0 { r.below(2) } else { r.below(4) };
+    match k {
+        0 => {
+            let mut l: Vec<(usize, f64)> = vec![];
+            for _ in 0..1 + r.below(4) {
+                let e = if r.chance(1, 2) { hot_e } else { r.below(B_EDGES) as usize };
+                if r.chance(1, 12) || !l.iter().any(|(k, _)| *k == e) {
+                    l.push((e, val(r))); // rarely the same key twice in one file: the last row wins
+                }
+            }
+            B::Trav(Some(l))
+        }
+        1 => {
+            let mut l: Vec<((usize, usize), f64)> = vec![];
+            for _ in 0..1 + r.below(4) {
+                let k = if r.chance(1, 2) { hot_p } else { (r.below(B_EDGES) as usize, hot_p.1) };
+                if r.chance(1, 12) || !l.iter().any(|(x, _)| *x == k) {
+                    l.push((k, val(r)));
+                }
+            }
+            B::Acc(Some(l))
+        }
+        _ => B::Comb((0..r.below(5)).map(|_| gen_b(r, depth - 1, hot_e, hot_p)).collect()),
+    }
+}
+fn builder_stream(a: &Args, st: &mut Stream) {
+    let dir = a.out.join("csv");
+    // the C07-14 witness: two toll tables and a congestion table listing edge 7, two turn tables listing (3,7)
+    let toll = B::Trav(Some(vec![(3, 3.0), (7, 4.0)]));
+    let congestion = B::Trav(Some(vec![(7, 1.5), (9, 8.0)]));
+    let turn1 = B::Acc(Some(vec![((3, 7), 1.0), ((7, 9), 2.0)]));
+    let turn2 = B::Acc(Some(vec![((3, 7), 0.5)]));
+    let probes_e = vec![5usize, 3, 9, 7];
+    let probes_p = vec![(7usize, 9usize), (3, 7), (5, 7), (3, 5)];
+    let mk = |b: B| BCase { b, edges: probes_e.clone(), pairs: probes_p.clone(), w: 1.0, d: 2.0 };
+    add_builder(st, mk(B::Comb(vec![toll.clone(), congestion.clone(), turn1.clone(), turn2.clone()])), "overlapping_tables_witness", &dir);
+    add_builder(st, mk(B::Comb(vec![toll.clone(), B::Comb(vec![congestion.clone(), turn1.clone()]), turn2.clone()])), "overlapping_tables_witness", &dir);
+    add_builder(st, mk(B::Comb(vec![B::Comb(vec![B::Comb(vec![toll.clone(), toll.clone(), toll.clone()])]), turn2.clone(), turn2.clone()])), "overlapping_tables_witness", &dir);
+    add_builder(st, mk(toll.clone()), "single_table", &dir);
+    add_builder(st, mk(turn1.clone()), "single_table", &dir);
+    add_builder(st, mk(B::Comb(vec![])), "empty_combined", &dir);
+    add_builder(st, mk(B::Comb(vec![toll.clone(), turn2.clone()])), "disjoint_tables", &dir);
+    add_builder(st, mk(B::Trav(Some(vec![(7, 1.0), (3, 2.0), (7, 5.0)]))), "duplicate_rows_in_one_file", &dir);
+    add_builder(st, mk(B::Comb(vec![toll.clone(), B::Trav(None)])), "missing_file", &dir);
+    add_builder(st, mk(B::Acc(None)), "missing_file", &dir);
+    // 2-3 traversal tables x 2-3 access tables, flat and nested, all sharing the probed keys; weights and negative fees
+    for nt in 2..=3usize {
+        for na in 2..=3usize {
+            for nested in [false, true] {
+                for w in [1.0, 3.0, -1.0, 0.5] {
+                    let ts: Vec<B> = (0..nt).map(|i| B::Trav(Some(vec![(7, 1.0 + i as f64), (i, 10.0)]))).collect();
+                    let as_: Vec<B> = (0..na).map(|i| B::Acc(Some(vec![((3, 7), 0.25 * (i as f64 + 1.0)), ((i, 7), -1.0)]))).collect();
+                    let b = if nested { B::Comb(vec![B::Comb(ts), B::Comb(vec![B::Comb(as_)])]) } else { B::Comb(ts.into_iter().chain(as_).collect()) };
+                    add_builder(st, BCase { b, edges: vec![7, 0, 1, 2, 5], pairs: vec![(3, 7), (0, 7), (2, 7), (3, 5)], w, d: 2.0 }, "tables_x_nesting_x_weight", &dir);
+                }
+            }
+        }
+    }
+    let mut rng = Rng::new(a.seed ^ 0xb11d);
+    while st.next_id() < a.n {
+        let mut r = rng.fork();
+        let hot_e = r.below(B_EDGES) as usize;
+        let hot_p = (r.below(B_EDGES) as usize, hot_e);
+        let depth = 1 + r.below(3) as usize;
+        let b = B::Comb((0..2 + r.below(5)).map(|_| gen_b(&mut r, depth - 1, hot_e, hot_p)).collect());
+        let mut edges = vec![hot_e];
+        let mut pairs = vec![hot_p];
+        for _ in 0..r.below(4) {
+            edges.push(r.below(B_EDGES) as usize);
+            pairs.push((r.below(B_EDGES) as usize, if r.chance(1, 2) { hot_e } else { r.below(B_EDGES) as usize }));
+        }
+        let w = *r.pick(&[1.0, 0.5, 3.0, -1.0, 2.0]);
+        let d = val(&mut r);
+        add_builder(st, BCase { b, edges, pairs, w, d }, "random", &dir);
+    }
+    let _ = std::fs::remove_dir_all(&dir);
+}
+
+const HEADER: &str = "From Coq Require Import ZArith List String Floats.\nFrom RC Require Import Base.Show Base.Res Model.Cost Model.CostRun.\nImport ListNotations.\nImport Cost CostRun.";
+
 fn main() {
     silence_panics();
     let a = parse_args();
@@ -1067,8 +1493,41 @@ fn main() {
         probe(&a);
         return;
     }
-    let header = "From Coq Require Import ZArith List String Floats.\nFrom RC Require Import Base.Show Base.Res Model.Cost Model.CostRun.\nImport ListNotations.\nImport Cost CostRun.";
-    let mut st = Stream::new(&a.out, "cost", header, a.shards);
+    if a.stream == "seq" {
+        let mut st = Stream::new(&a.out, "seq", HEADER, a.shards);
+        if let Some(p) = &a.replay {
+            st.full = true;
+            let v: Value = serde_json::from_str(&std::fs::read_to_string(p).unwrap()).unwrap();
+            let case = &v["case"];
+            add_seq(&mut st, j_case(&case["case"]), case["calls"].as_array().unwrap().iter().map(j_call).collect(), case["family"].as_str().unwrap_or("replay"));
+        } else {
+            seq_stream(&a, &mut st);
+        }
+        st.finish();
+        return;
+    }
+    if a.stream == "builder" {
+        let mut st = Stream::new(&a.out, "builder", HEADER, a.shards);
+        if let Some(p) = &a.replay {
+            st.full = true;
+            let v: Value = serde_json::from_str(&std::fs::read_to_string(p).unwrap()).unwrap();
+            let case = &v["case"];
+            let us = |x: &Value| x.as_u64().unwrap() as usize;
+            let c = BCase {
+                b: j_b(&case["builder"]),
+                edges: case["edges"].as_array().unwrap().iter().map(us).collect(),
+                pairs: case["pairs"].as_array().unwrap().iter().map(|x| (us(&x[0]), us(&x[1]))).collect(),
+                w: jf(&case["w"]),
+                d: jf(&case["d"]),
+            };
+            add_builder(&mut st, c, case["family"].as_str().unwrap_or("replay"), &a.out.join("csv"));
+        } else {
+            builder_stream(&a, &mut st);
+        }
+        st.finish();
+        return;
+    }
+    let mut st = Stream::new(&a.out, "cost", HEADER, a.shards);
     if let Some(p) = &a.replay {
         st.full = true;
         let v: Value = serde_json::from_str(&std::fs::read_to_string(p).unwrap()).unwrap();
@@ -1084,8 +1543,18 @@ fn main() {
     let mut rng = Rng::new(a.seed);
     while st.next_id() < a.n {
         let mut r = rng.fork();
-        let c = random_case(&mut r);
-        add_case(&mut st, c, "random");
+        let mut c = random_case(&mut r);
+        // one case in ten with the weights scaled by 2^-40 (~9.1e-13): positive totals below MIN_COST
+        if r.chance(1, 10) {
+            let k = 9.094947017729282e-13;
+            c.w.iter_mut().for_each(|(_, x)| *x *= k);
+            if let Some(q) = c.qw.as_mut() {
+                q.iter_mut().for_each(|(_, x)| *x *= k);
+            }
+            add_case(&mut st, c, "random_tiny_weights");
+        } else {
+            add_case(&mut st, c, "random");
+        }
     }
     st.finish();
 }
